@@ -126,7 +126,8 @@ inductive DataPath where
   | vpcRoute | exclusiveENI | vlan | ipvlan
   deriving DecidableEq, Repr
 
-/-- `getDatePath`: a function of IP type, trunking and VLAN strip mode only -/
+/-- `getDatePath`: a function of IP type, trunking and VLAN strip mode only; `stripVlan` is `vlan_strip_type == "vlan"`
+    ("filter", a missing key and any other string all count as not-vlan) -/
 def getDataPath (t : IPType) (stripVlan : Bool) (trunk : Bool) : DataPath :=
   match t with
   | .vpcIP => .vpcRoute
